@@ -13,35 +13,35 @@ PROPS = {
     "C02": {
         "level": "exploration",
         "quick": [("A", 30000)],
-        "thorough": [("A", 800000), ("C", 200000)],
+        "thorough": [("A", 800000), ("C", 200000), ("D", 60000)],
         "probes": ["leak_iter", "leak_drain", "leak_extract", "leak_entry", "leak_into_iter", "early_drop_drain", "early_drop_extract", "early_drop_into_iter", "small_table", "multi_group_table", "rehash_in_place", "serde_lying_hint"],
         "rule": "one evaluation = one simulated run of mixed operations in which iterators, drains, extract_ifs and entries are advanced k steps and then dropped or mem::forget-ten (cancellation faults F9/F10), with lying size hints (F13), colliding hash plans, exact-alignment-only allocator placement, element layouts 8..208 bytes and align up to 64; oracles: ledger (double drop, dead reference), red-zone canaries, quarantine poison, layout match, dump invariants I1-I4 and allocator balance after every call; non-trivial/distinct as for C01",
     },
     "C03": {
         "level": "exploration",
         "quick": [("A", 30000)],
-        "thorough": [("A", 1000000)],
+        "thorough": [("A", 1000000), ("D", 30000)],
         "probes": ["early_drop_drain", "early_drop_extract", "early_drop_into_iter", "clone_from_same_buckets", "clone_from_diff_buckets", "clone_from_src_empty", "clone_from_dst_tombstones", "shrink", "shrink_to_singleton", "rehash_in_place"],
         "rule": "one evaluation = one simulated run ending in or containing removal, overwrite, clear, retain/extract_if, drain, into_iter/into_keys/into_values with sampled cut points, shrink, clone_from into an occupied target and drop; oracle: every element serial dropped exactly once or moved out once, every block returned once with its original layout, nothing live at the end; non-trivial/distinct as for C01",
     },
     "C04": {
         "level": "fault_enumeration",
         "quick": [("A", 8000)],
-        "thorough": [("A", 80000), ("C", 20000)],
+        "thorough": [("A", 80000), ("C", 20000), ("D", 8000)],
         "probes": ["panic_in_resize", "panic_in_rehash_in_place", "panic_in_clone", "panic_in_drop", "panic_in_pred", "panic_in_eq", "panic_in_hash_lookup"],
         "rule": "one evaluation = one execution of a scenario; each seeded scenario is first executed fault-free to count the callback invocations of every class inside every operation, then re-executed with the k-th invocation of one class panicking inside one target operation, for every k (thorough) or k in {1, last, 2 random} (quick); non-trivial = a fault fired or a structural event occurred; distinct = distinct signatures (operation kinds + structural events + fired fault class), k-minimum-values sketch",
     },
     "C05": {
         "level": "exploration",
         "quick": [("A", 20000)],
-        "thorough": [("A", 500000), ("C", 50000)],
+        "thorough": [("A", 500000), ("C", 50000), ("D", 30000)],
         "probes": ["byz_hash_answer", "byz_eq_answer", "rehash_in_place", "resize_up", "tombstone_created"],
         "rule": "one evaluation = one simulated run under a byzantine hash plan (fresh value per call / periodic flips / epoch changes) and/or a byzantine equality (random, always true, always false, asymmetric) for the whole run; only the safety subset of the oracles is active (ledger, canaries, invariants I1-I4, len()==iter().count(), per-operation callback cap as divergence verdict, everything dropped exactly once at the end); non-trivial/distinct as for C01",
     },
     "C06": {
         "level": "exploration",
         "quick": [("A", 30000), ("B", 5000)],
-        "thorough": [("A", 900000), ("B", 100000)],
+        "thorough": [("A", 900000), ("B", 100000), ("D", 20000)],
         "probes": ["reinsert_same_slot", "iter_hash_multi", "dup_elements", "zero_sized", "entry_at_full_load", "tombstone_created", "rehash_in_place", "tombstone_reused"],
         "rule": "one evaluation = one simulated run of HashTable operations (find, find_mut, find_entry, entry, insert_unique, OccupiedEntry::remove then VacantEntry::insert, iter_hash(_mut), retain, extract_if, drain, clear, reserve, shrink, get_many_mut, clone) with caller-supplied hashes drawn from the hash plans (collisions in position bits, tag bits, both; duplicates of identical ids; zero-sized elements) against a multiset model; non-trivial/distinct as for C01",
     },
@@ -62,14 +62,14 @@ PROPS = {
     "C09": {
         "level": "exploration",
         "quick": [("A", 30000), ("B", 5000)],
-        "thorough": [("A", 900000), ("B", 100000)],
+        "thorough": [("A", 900000), ("B", 100000), ("D", 20000)],
         "probes": ["iter_clone_mid", "iter_fold_switch", "iter_default", "iter_after_exhaustion", "small_table", "one_group_table", "multi_group_table", "tombstone_created"],
         "rule": "one evaluation = one simulated run in which, in every reached state, iter/iter_mut/keys/values/values_mut/into_iter/into_keys/into_values/drain are driven by a plan (a x next, optional clone, then next/fold/for_each/count/last/nth, then calls after exhaustion) with size_hint/len checked at every step; non-trivial/distinct as for C01",
     },
     "C10": {
         "level": "exploration",
         "quick": [("A", 30000)],
-        "thorough": [("A", 1000000)],
+        "thorough": [("A", 1000000), ("D", 20000)],
         "probes": ["early_drop_drain", "early_drop_extract", "tombstone_created", "multi_group_table", "small_table"],
         "rule": "one evaluation = one simulated run with retain / extract_if predicates answering true on an arbitrary PRNG-drawn subset (and mutating values), extract_if and drain dropped after k steps for sampled k; oracle: predicate called exactly once per element, kept/yielded sets exact, unvisited elements stay, drain leaves an empty usable collection holding the same block; non-trivial/distinct as for C01",
     },
@@ -83,7 +83,7 @@ PROPS = {
     "C12": {
         "level": "fault_enumeration",
         "quick": [("A", 30000)],
-        "thorough": [("A", 1000000)],
+        "thorough": [("A", 1000000), ("D", 20000)],
         "probes": ["refused_alloc", "capacity_overflow", "try_reserve_ok"],
         "rule": "one evaluation = one simulated run in which try_reserve is called in every reached state with amounts from {small, around 7/8*2^k, isize::MAX, usize::MAX, usize::MAX/size_of<T> +-1} under allocator refusal modes (refuse the 1st request / everything / above a byte limit); an operation makes at most one allocator request, so refusing request j=1 enumerates the fault positions; non-trivial/distinct as for C01",
     },
@@ -126,7 +126,7 @@ PROPS = {
     "C19": {
         "level": "exploration",
         "quick": [("A", 30000)],
-        "thorough": [("A", 600000), ("C", 60000)],
+        "thorough": [("A", 600000), ("C", 60000), ("D", 30000)],
         "probes": ["par_split", "par_steal", "par_depth3", "par_early_stop", "par_consumer_panic", "multi_group_table", "small_table"],
         "rule": "one evaluation = one simulated run in which the rayon adaptors of a map, set or table reached by a history (tables of 4..4096 buckets, any occupancy) are driven through the simulator-owned bridge_unindexed under a recorded decision list: split-or-fold at every node (free form, or a rayon-like split budget for pool sizes 1..64 with budget reset on a 'steal'), the order in which pending subtrees run, consumers that take everything, stop after k items (take_any, find_any, any, all) or panic at item k; oracle: delivered multiset = stored multiset (or a sub-multiset without duplicates of exactly the requested size), par_iter_mut visits each element once, par_drain leaves an empty usable collection holding the same block, undelivered elements dropped exactly once also under a consumer panic, parallel set operations / predicates / par_eq / par_extend / from_par_iter equal their sequential counterparts; distinct = distinct signatures incl. the split-tree shape digest",
     },
